@@ -81,3 +81,14 @@ Fixpoint encode_replace_upto (limit : N) (s : str) : list N :=
       if n <=? limit then e ++ encode_replace_upto (limit - n) s' else []
   end.
 Close Scope N_scope.
+
+(* Python's text mode (open(..., newline=None), Path.read_text): after decoding, "\r\n" and a lone "\r" become "\n" *)
+Fixpoint univ_nl (s : str) : str :=
+  match s with
+  | [] => []
+  | 13%N :: rest => 10%N :: match rest with 10%N :: r2 => univ_nl r2 | _ => univ_nl rest end
+  | c :: rest => c :: univ_nl rest
+  end.
+(* Path.read_text(encoding="utf-8") of a file with these bytes; None = UnicodeDecodeError.  A leading U+FEFF is kept
+   ("utf-8", not "utf-8-sig"). *)
+Definition read_text (content : str) : option str := option_map univ_nl (decode content).
